@@ -5,13 +5,13 @@
 package xport
 
 import (
-	"net"
-	"os"
-	"syscall"
 	"errors"
 	"fmt"
 	"io"
 	"math/rand"
+	"net"
+	"os"
+	"syscall"
 )
 
 // Plan describes how a Chunker splits its data across Read calls.
